@@ -23,3 +23,87 @@ def c02_sparse_collapse_reducer_sees_stored_values_only(fam, case, verdict):
     if not (isinstance(impl, dict) and "ok" in impl and isinstance(model, dict) and "ok" in model):
         return False
     return deep_eq(impl["ok"], canon_model(model["ok"]))
+
+
+def _stored(h):
+    """numpy array of a dense holder in its storage type (F-order data), or None for float64 storage"""
+    import numpy as np
+    dt = h.get("dtype")
+    if not dt or dt == "float64":
+        return None
+    a = np.array([int(x) for x in h["data"]], dtype=object).astype(dt)
+    return a.reshape(tuple(h["shape"]), order="F")
+
+
+def _same_values(got, want_arr, single):
+    """canonical implementation result == numpy array `want_arr`, value by value (exactly; `single`: both are
+    single precision numbers that agree to a few units in the last place of single precision)"""
+    import numpy as np
+    from fractions import Fraction
+    from harness.props.c02 import value_of
+    shp, vals = value_of(got)
+    want_arr = np.asarray(want_arr)
+    if list(shp) != list(want_arr.shape) or len(vals) != want_arr.size:
+        return False
+    for g, w in zip(vals, want_arr.flatten(order="F").tolist()):
+        if isinstance(g, str):
+            return False
+        w = Fraction(int(w)) if isinstance(w, (bool, int)) else Fraction(float(w))
+        if g == w:
+            continue
+        if not single:
+            return False
+        if float(np.float32(float(g))) != float(g) or abs(g - w) > abs(w) / 10 ** 6:
+            return False
+    return True
+
+
+@matcher
+def c02_ttt_computed_in_storage_dtype(fam, case, verdict):
+    """tensor.ttt multiplies and sums in the storage type of its operands (its doctest pins an integer result for
+    integer input).  Matches only: family dtypes, ttt, both operands stored in the same non-float64 type, and an
+    implementation result that is exactly the contraction carried out by numpy in that type (wrap-around for
+    integers, logical or / and for bool, single precision for float32)."""
+    import numpy as np
+    if fam != "dtypes" or case is None or case.get("op") != "ttt":
+        return False
+    A, B = _stored(case.get("X", {})), _stored(case.get("Y", {}))
+    if A is None or B is None or A.dtype != B.dtype:
+        return False
+    impl = verdict.impl
+    if not (isinstance(impl, dict) and "ok" in impl):
+        return False
+    with np.errstate(all="ignore"):
+        want = np.tensordot(A, B, axes=(list(case["xd"]), list(case["yd"])))
+    return _same_values(impl["ok"], want, A.dtype == np.float32)
+
+
+@matcher
+def c02_sparse_scale_computed_in_storage_dtype(fam, case, verdict):
+    """sptensor.scale multiplies the stored values by the factor in their storage type (its doctest pins integer
+    values for integer input).  Matches only: family dtypes, scale of a sparse holder, values and factor stored in
+    the same non-float64 type, and an implementation result that is exactly the entry-wise product carried out by
+    numpy in that type, zero products dropped."""
+    import numpy as np
+    if fam != "dtypes" or case is None or case.get("op") != "scale":
+        return False
+    X, F = case.get("X", {}), case.get("F", {})
+    dt = X.get("dtype")
+    if X.get("kind") != "sparse" or not dt or dt == "float64":
+        return False
+    fdt = case.get("mdtype") if F.get("kind") == "array" else F.get("dtype")
+    if fdt != dt:
+        return False
+    impl = verdict.impl
+    if not (isinstance(impl, dict) and "ok" in impl and isinstance(impl["ok"], dict) and impl["ok"].get("kind") == "sparse"):
+        return False
+    f = np.array([int(x) for x in F["data"]], dtype=object).astype(dt)
+    if F.get("kind") != "array":
+        f = f.reshape(tuple(F["shape"]), order="F")
+    subs = np.array(X["subs"], dtype=int).reshape(len(X["subs"]), len(X["shape"]))
+    vals = np.array([int(x) for x in X["vals"]], dtype=object).astype(dt)
+    with np.errstate(all="ignore"):
+        prod = vals * f[tuple(subs[:, list(case["dims"])].T)]
+    want = np.zeros(tuple(X["shape"]), dtype=prod.dtype)
+    want[tuple(subs.T)] = prod
+    return _same_values(impl["ok"], want, np.dtype(dt) == np.float32)
